@@ -288,6 +288,51 @@ fn interleaved_workload(ctx: &mut Ctx, thorough: bool, rng: &mut Rng) {
     }
 }
 
+/// Rounds of fresh threads released together by a spin barrier, each making its FIRST call of random() at
+/// once (lazily initialised per-thread or process-wide generator state is set up in that call): within a
+/// round and across rounds all draws of 256 bits or more must be pairwise distinct.
+fn thread_start_rounds(ctx: &mut Ctx, rounds: usize) {
+    use std::sync::atomic::{AtomicUsize, Ordering};
+    let ev = Ev::new("thread-start-rounds", "Lut+LutN", 8).int(rounds).int(THREADS);
+    let mut all: HashMap<Vec<u64>, usize> = HashMap::new();
+    let mut coinciding = 0usize;
+    let mut draws = 0u64;
+    for _ in 0..rounds {
+        let ready = Arc::new(AtomicUsize::new(0));
+        let handles: Vec<_> = (0..THREADS)
+            .map(|_| {
+                let ready = ready.clone();
+                std::thread::spawn(move || {
+                    ready.fetch_add(1, Ordering::SeqCst);
+                    while ready.load(Ordering::SeqCst) < THREADS {
+                        std::hint::spin_loop();
+                    }
+                    guard(|| (volute::Lut::random(8).blocks().to_vec(), volute::Lut10::random().blocks().to_vec()))
+                })
+            })
+            .collect();
+        for h in handles {
+            match h.join().expect("harness: racing thread") {
+                Outcome::Returned((a, b)) => {
+                    for t in [a, b] {
+                        draws += 1;
+                        let c = all.entry(t).or_insert(0);
+                        coinciding += *c;
+                        *c += 1;
+                    }
+                }
+                Outcome::Panicked(m) => ctx.violate("no-panic", &ev, "panic", format!("random() panicked in a freshly started thread: {}", m)),
+            }
+        }
+    }
+    ctx.event_digest("thread-start-rounds", rounds as u64, true, || ev.clone());
+    ctx.bump("draws", draws);
+    ctx.bump("thread-start-rounds", rounds as u64);
+    ctx.check("draws-distinct", coinciding == 0, &ev, "thread-start", || {
+        format!("{} coinciding pairs among the {} first draws of {} rounds of {} freshly started threads", coinciding, draws, rounds, THREADS)
+    });
+}
+
 const MAX_N: usize = 12;
 
 fn main() {
@@ -312,6 +357,7 @@ fn main() {
         }
     }
     let thorough = ctx.thorough();
+    thread_start_rounds(&mut ctx, if thorough { 6000 } else { 400 });
     let mut irng = Rng::new(cli.seed ^ 0xc19);
     for _ in 0..if thorough { 4 } else { 1 } {
         interleaved_workload(&mut ctx, thorough, &mut irng);
@@ -323,6 +369,9 @@ fn main() {
                 required.push(format!("interleaved|{}|{}|n={}", kind, ty, n));
             }
             required.push(format!("log|{}|n={}|threads=1", ty, n));
+            if n == 0 && ty == "Lut" {
+                required.push("thread-start-rounds".into());
+            }
             required.push(format!("log|{}|n={}|threads={}", ty, n, THREADS));
         }
     }
